@@ -12,7 +12,7 @@
    tokens become one Hostname), although idempotence itself holds there. *)
 Require Import Base Overlap OverlapProofs Tables_lexer Lexer Condense ListLemmas TokenInv CondenseInv LexerProofs
   DocumentProofs C18LexStable C18PassesIC C18LexDots C18LexAlnum.
-Require Import Tables_titlecase TitleCase TitleCaseProofs C18Str.
+Require Import Tables_titlecase TitleCase TitleCaseProofs C18Str C18LexCurly.
 From Coq Require Import Lia Sorting.Sorted.
 
 (* ================= the attached token list ================= *)
@@ -485,55 +485,59 @@ Section Str.
   Lemma alnum_stable_Alnum s : alnum_stable_text s -> Alnum u s.
   Proof. intros [H Hc]. split; [|exact Hc]. eapply Forall_impl; [|exact H]. cbn beta. intros a [Ha _]. exact Ha. Qed.
 
-  Lemma char3_not_apo_from a : char3 u a = true -> ~ In a tc_canonical_apostrophe_from.
+  (* phase 6: U+2019 is a character of the class; the guarded copy may write ' over it *)
+  Definition apostrophe_in_class : Prop := char3 u 39 = true.
+
+  Lemma char3_apo_from a : char3 u a = true -> In a tc_canonical_apostrophe_from -> a = 8217%N.
   Proof.
-    intros Hp Hin. assert (Hb : In a bad3).
-    { cbn in Hin. cbn. destruct Hin as [<-|[<-|[<-|[]]]]; tauto. }
-    pose proof (char3_not_bad u a a Hp Hb) as X. rewrite N.eqb_refl in X. discriminate.
+    intros Hp Hin. cbn in Hin. destruct Hin as [<-|[<-|[<-|[]]]]; [reflexivity| |].
+    - pose proof (char3_not_bad u 8216%N 8216%N Hp ltac:(cbn; tauto)) as X. rewrite N.eqb_refl in X. discriminate.
+    - pose proof (char3_not_bad u 65287%N 65287%N Hp ltac:(cbn; tauto)) as X. rewrite N.eqb_refl in X. discriminate.
   Qed.
 
-  Lemma alnum_rel_Rl (src out : text) : ascii_case_faithful ->
+  Lemma alnum_rel_Rl4 (src out : text) : ascii_case_faithful -> apostrophe_in_class ->
     Forall (fun a => char3 u a = true /\ case_stable3 a) src ->
-    Forall2 (tc_rel lower upper) src out -> Forall2 (Rl u) src out /\ Forall (fun c => char3 u c = true) out.
+    Forall2 (tc_rel lower upper) src out -> Forall2 (Rl4 u) src out /\ Forall (fun c => char3 u c = true) out.
   Proof.
-    intros Hf HP HR. induction HR as [|a c l l' Hac _ IH]; [split; constructor|].
+    intros Hf H39 HP HR. induction HR as [|a c l l' Hac _ IH]; [split; constructor|].
     inversion HP as [|a' l0 [Pa Hcs] Pl]; subst. destruct (IH Pl) as [IH1 IH2].
-    destruct Hac as [Hv|[Hin _]]; [|exfalso; exact (char3_not_apo_from a Pa Hin)].
-    destruct (Hcs c Hv) as [->|[(W1 & W2 & Pc)|(W1 & W2 & Pc)]].
-    - split; constructor; try assumption. now left.
-    - split; constructor; try assumption. right. left. repeat split; try assumption. exact (Hf a c Hv).
-    - split; constructor; try assumption. right. right. split; assumption.
+    destruct Hac as [Hv|[Hin Hc]].
+    - destruct (Hcs c Hv) as [->|[(W1 & W2 & Pc)|(W1 & W2 & Pc)]].
+      + split; constructor; try assumption. left. now left.
+      + split; constructor; try assumption. left. right. left. repeat split; try assumption. exact (Hf a c Hv).
+      + split; constructor; try assumption. left. right. right. split; assumption.
+    - pose proof (char3_apo_from a Pa Hin) as ->. change tc_canonical_apostrophe_to with 39%N in Hc. subst c.
+      split; constructor; try assumption. right. split; reflexivity.
   Qed.
 
   (* RE-LEXING a text of the class: same document tokens, metadata included; the output is in the class again *)
   Theorem str_relex_alnum (src out : text) :
     lower_ascii_law lower -> upper_ascii_law upper -> apostrophes_caseless lower upper -> ascii_case_faithful ->
-    dict_meta_case_insensitive ->
+    dict_meta_case_insensitive -> apostrophe_in_class ->
     alnum_stable_text src ->
     tcs src = Ok out ->
     doc out = doc src /\ alnum_text u out = true.
   Proof.
-    intros Hla Hua Hapo Hf Hdm Hps H. pose proof (alnum_stable_Alnum _ Hps) as Hp. destruct Hps as [Hps Hctx].
+    intros Hla Hua Hapo Hf Hdm H39 Hps H. pose proof (alnum_stable_Alnum _ Hps) as Hp. destruct Hps as [Hps Hctx].
     pose proof (str_rel _ _ Hla Hua Hapo H) as HR.
-    destruct (alnum_rel_Rl _ _ Hf Hps HR) as [HRl Hp'].
-    assert (Hd' : Alnum u out).
-    { split; [exact Hp'|]. rewrite (ctx_ok3_congr0 u src out HRl). exact Hctx. }
+    destruct (alnum_rel_Rl4 _ _ Hf H39 Hps HR) as [HRl Hp'].
+    assert (Hd' : Alnum u out) by (apply (alnum_closed_rl4 u src out HRl Hp Hp')).
     split; [|apply alnum_text_Alnum; exact Hd'].
     apply (str_relex_of_lexer src out Hla Hua Hapo Hf Hdm H).
-    apply plain_parse_alnum; assumption.
+    apply (proj1 (plain_parse_alnum4 u src out HRl Hp Hd')).
   Qed.
 
   Theorem str_idempotent_alnum (src out : text) :
     lower_ascii_law lower -> upper_ascii_law upper -> apostrophes_caseless lower upper ->
     lowercase_fixed lower is_lowercase -> apostrophes_lower_fixed lower -> ascii_case_faithful ->
     dict_case_insensitive lower upper is_lowercase dict_canon dict_meta ->
-    dict_meta_case_insensitive ->
+    dict_meta_case_insensitive -> apostrophe_in_class ->
     alnum_stable_text src ->
     tcs src = Ok out ->
     tcs out = Ok out.
   Proof.
-    intros Hla Hua Hapo Hfx Hfix Hf Hd Hdm Hp H.
-    destruct (str_relex_alnum _ _ Hla Hua Hapo Hf Hdm Hp H) as [Hre _].
+    intros Hla Hua Hapo Hfx Hfix Hf Hd Hdm H39 Hp H.
+    destruct (str_relex_alnum _ _ Hla Hua Hapo Hf Hdm H39 Hp H) as [Hre _].
     apply (str_idempotent_partial src out Hla Hua Hapo Hfx Hfix Hd H Hre).
   Qed.
 
@@ -544,26 +548,27 @@ Section Str.
     ascii_case_faithful ->
     dict_case_insensitive lower upper is_lowercase dict_canon dict_meta ->
     (forall w cc, dict_canon w = Some cc -> length w <= length cc) ->
-    dict_meta_case_insensitive ->
+    dict_meta_case_insensitive -> apostrophe_in_class ->
     alnum_stable_text src ->
     exists out,
       tcs src = Ok out /\
       length out = length src /\
-      (forall k c, nth_error out k = Some c -> exists a, nth_error src k = Some a /\ case_variant lower upper a c) /\
+      (forall k c, nth_error out k = Some c -> exists a, nth_error src k = Some a /\
+         (case_variant lower upper a c \/ (a = 8217%N /\ c = 39%N))) /\
       (forall toks w0 rest, doc src = Ok toks -> filter tok_word_like toks = w0 :: rest ->
          exists a c, nth_error src (tstart w0) = Some a /\ nth_error out (tstart w0) = Some c /\
                      is_ascii_lower c = false /\ (is_ascii_alpha a = true -> is_ascii_upper c = true)) /\
       tcs out = Ok out.
   Proof.
-    intros Hla Hua Hapo Hcl Hfx Hfix Hf Hd Hlen Hdm Hp.
+    intros Hla Hua Hapo Hcl Hfx Hfix Hf Hd Hlen Hdm H39 Hp.
     destruct (str_total src Hlen) as [out H]. exists out. split; [exact H|].
     split; [apply (str_length _ _ H)|]. split; [|split].
     - intros k c Hc. destruct (str_case_only _ _ Hla Hua Hapo H k c Hc) as (a & Ha & Hr).
-      exists a. split; [exact Ha|]. destruct Hr as [Hv|[Hin _]]; [exact Hv|].
-      exfalso. apply alnum_stable_Alnum in Hp. destruct Hp as [Hp _]. rewrite Forall_forall in Hp.
-      apply (char3_not_apo_from a); [apply Hp; eapply nth_error_In; exact Ha|exact Hin].
+      exists a. split; [exact Ha|]. destruct Hr as [Hv|[Hin Hto]]; [left; exact Hv|right].
+      apply alnum_stable_Alnum in Hp. destruct Hp as [Hp _]. rewrite Forall_forall in Hp.
+      split; [apply (char3_apo_from a); [apply Hp; eapply nth_error_In; exact Ha|exact Hin]|exact Hto].
     - intros toks w0 rest E Hfl. apply (str_first_upper src out toks w0 rest Hcl H E Hfl).
-    - apply (str_idempotent_alnum src out Hla Hua Hapo Hfx Hfix Hf Hd Hdm Hp H).
+    - apply (str_idempotent_alnum src out Hla Hua Hapo Hfx Hfix Hf Hd Hdm H39 Hp H).
   Qed.
 End Str.
 
